@@ -176,14 +176,31 @@ func selectAddrFromSubnetOffset(net1 *phantomNet, offset *big.Int) (*PhantomIP, 
 	}
 
 	ipBigInt := &big.Int{}
+	ipLen := net.IPv6len
 	if v4net := net1.IP.To4(); v4net != nil {
 		ipBigInt.SetBytes(net1.IP.To4())
+		ipLen = net.IPv4len
 	} else if v6net := net1.IP.To16(); v6net != nil {
 		ipBigInt.SetBytes(net1.IP.To16())
 	}
 
 	ipBigInt.Add(ipBigInt, offset)
-	ip := net.IP(ipBigInt.Bytes())
+	ip, err := bigIntToIP(ipBigInt, ipLen)
+	if err != nil {
+		return nil, err
+	}
 
 	return &PhantomIP{ip: &ip, supportRandomPort: net1.supportRandomPort}, nil
+}
+
+// bigIntToIP converts an address held in a big.Int back to a net.IP of exactly ipLen bytes.
+// big.Int.Bytes() drops leading zero bytes, so an address in a network such as 0.1.0.0/16 or
+// 64:ff9b::/96 would otherwise come back shorter than an IPv4 / IPv6 address.
+func bigIntToIP(v *big.Int, ipLen int) (net.IP, error) {
+	if v.Sign() < 0 || v.BitLen() > ipLen*8 {
+		return nil, errors.New("address out of range")
+	}
+	ip := make(net.IP, ipLen)
+	v.FillBytes(ip)
+	return ip, nil
 }
